@@ -34,6 +34,8 @@ func init() {
 			{ID: "C02.8", Doc: "every response that comes back is offered to the result set, whatever else happened to the lookup meanwhile", Floor: 2, Run: c02r8},
 			{ID: "C02.9", Doc: "distinct responders are distinct keys: the result set's order is total (shared with C18.3)", Floor: 4, Run: c18r3},
 			{ID: "C02.10", Doc: "what the data filter judges is what the responder sent: the closest data is the reply's token only when one is present, nil otherwise (shared with C16.1)", Floor: 4, Run: c16r1},
+			{ID: "C02.11", Doc: "the lookup keeps asking while a closer candidate may exist: the stall predicate (shared with C03.5)", Floor: 5, Run: c03r5},
+			{ID: "C02.12", Doc: "no learned, filter-passing contact is kept from being asked: frontier refusals and removals enumerated (shared with C03.10)", Floor: 3, Run: c03r10},
 			{ID: "C02.6", Doc: "a response is registered in the result set before its query stops counting as in flight (shared with C03.2)", Floor: 5, Run: c03r2},
 		},
 	})
